@@ -141,3 +141,612 @@ Proof. unfold all_digit. rewrite forallb_app. intro H. apply andb_true_iff in H.
 
 Lemma all_digit_zeros k : all_digit (repeat 48 k).
 Proof. unfold all_digit. induction k as [|k IH]; cbn [repeat forallb]; [reflexivity|exact IH]. Qed.
+
+(* ---------- the parser evaluated on a structurally decomposed value ----------
+   value = pre rest with pre = sign digits and rest starting with a non-digit; what the index
+   arithmetic of dec64_scan / dec64_finish amounts to *)
+
+Definition dec64_tail (fd : nat) (pre rest : bytes) (nxt : N) : res Z :=
+  match rest with
+  | [] => plg_parse_int (pre ++ repeat 48 fd) I64MIN_Z I64MAX_Z
+  | c :: r2 =>
+      if (c =? 46) && is_digit (hd nxt r2) then
+        let fpa := fst (span_digits r2) in
+        let r3 := snd (span_digits r2) in
+        let fp := strip_tz fpa in
+        if (fd <? length fp)%nat then Err E_FRAC
+        else if (count_space r3 =? length r3)%nat
+             then plg_parse_int (pre ++ fp ++ repeat 48 (fd - length fp)) I64MIN_Z I64MAX_Z
+             else Err E_VALID
+      else if (count_space rest =? length rest)%nat
+           then plg_parse_int (pre ++ repeat 48 fd) I64MIN_Z I64MAX_Z
+           else Err E_VALID
+  end.
+
+Lemma dec_head sg ip rest :
+  is_sign sg -> all_digit ip -> (ip <> [] \/ sg <> []) ->
+  exists c0 r0, (sg ++ ip) ++ rest = c0 :: r0 /\ is_space c0 = false /\
+    (negb (is_digit c0) && negb (c0 =? 45) && negb (c0 =? 43)) = false /\
+    (if (c0 =? 45) || (c0 =? 43) then 1%nat else 0%nat) = length sg.
+Proof.
+  intros Hsg Hip Hne.
+  destruct Hsg as [-> | [-> | ->]].
+  - destruct ip as [|d ip']; [destruct Hne; congruence|].
+    unfold all_digit in Hip. cbn [forallb] in Hip. apply andb_true_iff in Hip. destruct Hip as [Hd _].
+    exists d, (ip' ++ rest). cbn [app length]. pose proof (digit_not_space d Hd) as Hns.
+    split; [reflexivity|]. split; [exact Hns|]. rewrite Hd. split; [reflexivity|].
+    unfold is_digit in Hd. destruct (d =? 45) eqn:E1; [lia|]. destruct (d =? 43) eqn:E2; [lia|]. reflexivity.
+  - exists 43, (ip ++ rest). cbn [app length]. repeat split; reflexivity.
+  - exists 45, (ip ++ rest). cbn [app length]. repeat split; reflexivity.
+Qed.
+
+
+Lemma scan_eval sg ip rest nxt :
+  all_digit ip -> head_nondigit rest ->
+  dec64_scan ((sg ++ ip) ++ rest) nxt (length sg) =
+  let len2 := length (sg ++ ip) in
+  match rest with
+  | [] => (len2, (len2 + 1)%nat, 0%nat)
+  | c :: r2 =>
+      if (c =? 46) && is_digit (hd nxt r2)
+      then let fpa := fst (span_digits r2) in
+           (len2, (len2 + 1 + length fpa - tzc fpa 0)%nat, tzc fpa 0)
+      else (0%nat, len2, 0%nat)
+  end.
+Proof.
+  intros Hip Hrest. unfold dec64_scan. cbv zeta.
+  assert (Hl2 : (length sg + count_digits (skipn (length sg) ((sg ++ ip) ++ rest)))%nat = length (sg ++ ip)).
+  { rewrite <- (app_assoc sg ip rest), skipn_app_len, (count_digits_app ip rest Hip Hrest), app_length. reflexivity. }
+  rewrite !Hl2. clear Hl2.
+  set (pre := sg ++ ip). 
+  unfold rd. rewrite <- (app_assoc pre rest [nxt]). rewrite (nth_app_len pre (rest ++ [nxt]) 1 0).
+  rewrite <- (Nat.add_0_r (length pre)) at 2. rewrite (nth_app_len pre rest 0 0).
+  rewrite app_length.
+  destruct rest as [|c r2].
+  - cbn [length]. replace (length pre <? length pre + 0)%nat with false by (symmetry; apply Nat.ltb_ge; lia).
+    cbn [andb]. rewrite skipn_all2 by (rewrite app_length; cbn [length]; lia).
+    cbn [scan_frac]. f_equal. f_equal. lia.
+  - cbn [length]. replace (length pre <? length pre + S (length r2))%nat with true by (symmetry; apply Nat.ltb_lt; lia).
+    cbn [andb nth app].
+    replace (nth 0 (r2 ++ [nxt]) 0) with (hd nxt r2) by (destruct r2; reflexivity).
+    destruct ((c =? 46) && is_digit (hd nxt r2)) eqn:Hdot.
+    + apply andb_true_iff in Hdot. destruct Hdot as [H46 Hdg]. rewrite H46, Hdg. cbn [negb orb].
+      change (c :: r2) with ([c] ++ r2). rewrite app_assoc.
+      rewrite (skipn_app_len' (pre ++ [c]) r2) by (rewrite app_length; cbn [length]; lia).
+      pose proof (span_digits_split r2) as [Hr2 [Hd Hh]].
+      rewrite Hr2 at 1. rewrite (scan_frac_app _ _ 0 0 Hd Hh). cbn [Nat.add]. reflexivity.
+    + apply andb_false_iff in Hdot. destruct Hdot as [H|H]; rewrite H; cbn [negb orb]; [reflexivity|].
+      rewrite orb_true_r. reflexivity.
+Qed.
+
+(* finishing when no fraction was recognised *)
+Lemma finish_nofrac fd pre rest :
+  dec64_finish fd (pre ++ rest) 0 (length pre) 0 =
+  if (count_space rest =? length rest)%nat
+  then plg_parse_int (pre ++ repeat 48 fd) I64MIN_Z I64MAX_Z else Err E_VALID.
+Proof.
+  unfold dec64_finish. cbv zeta. cbn [Nat.eqb negb andb]. rewrite Nat.add_0_r, skipn_app_len, firstn_app_len, app_length.
+  destruct (length pre <? length pre + length rest)%nat eqn:Hlt.
+  - replace (length pre + count_space rest =? length pre + length rest)%nat with (count_space rest =? length rest)%nat
+      by (destruct (count_space rest =? length rest)%nat eqn:E; symmetry; [apply Nat.eqb_eq in E; apply Nat.eqb_eq; lia|apply Nat.eqb_neq in E; apply Nat.eqb_neq; lia]).
+    destruct (count_space rest =? length rest)%nat; reflexivity.
+  - apply Nat.ltb_ge in Hlt. destruct rest; [|cbn [length] in Hlt; lia]. reflexivity.
+Qed.
+
+(* finishing after a fraction: value = pre mid, mid empty or one byte (the period) followed by the
+   significant fraction digits, tz zeros and the rest *)
+Lemma finish_frac fd pre mid fp tz r3 :
+  (0 < length pre)%nat ->
+  (mid = [] /\ fp = [] /\ tz = 0%nat /\ r3 = []) \/ (exists c, mid = c :: fp ++ repeat 48 tz ++ r3) ->
+  dec64_finish fd (pre ++ mid) (length pre) (length pre + 1 + length fp) tz =
+  if (fd <? length fp)%nat then Err E_FRAC
+  else if (count_space r3 =? length r3)%nat
+       then plg_parse_int (pre ++ fp ++ repeat 48 (fd - length fp)) I64MIN_Z I64MAX_Z else Err E_VALID.
+Proof.
+  intros Hpre Hmid. unfold dec64_finish. cbv zeta.
+  replace (length pre =? 0)%nat with false by (symmetry; apply Nat.eqb_neq; lia). cbn [negb andb].
+  replace (length pre + 1 + length fp - 1 - length pre)%nat with (length fp) by lia.
+  destruct (fd <? length fp)%nat; [reflexivity|].
+  rewrite firstn_app_len.
+  destruct Hmid as [[-> [-> [-> ->]]]|[c ->]].
+  - cbn [length app]. rewrite app_nil_r.
+    replace (length pre + 1 + 0 + 0 <? length pre)%nat with false by (symmetry; apply Nat.ltb_ge; lia).
+    cbn [negb Nat.eqb firstn app]. reflexivity.
+  - change (c :: fp ++ repeat 48 tz ++ r3) with ([c] ++ fp ++ repeat 48 tz ++ r3).
+    rewrite (app_assoc pre [c]).
+    rewrite (skipn_app_len' (pre ++ [c]) _ (length pre + 1)) by (rewrite app_length; cbn [length]; lia).
+    rewrite firstn_app_len.
+    rewrite (app_assoc fp), (app_assoc (pre ++ [c])).
+    rewrite (skipn_app_len' ((pre ++ [c]) ++ fp ++ repeat 48 tz) _ (length pre + 1 + length fp + tz)) by (rewrite !app_length, repeat_length; cbn [length]; lia).
+    rewrite !app_length, repeat_length. cbn [length].
+    destruct (length pre + 1 + length fp + tz <? length pre + 1 + (length fp + tz) + length r3)%nat eqn:Hlt.
+    + replace (length pre + 1 + length fp + tz + count_space r3 =? length pre + 1 + (length fp + tz) + length r3)%nat with (count_space r3 =? length r3)%nat
+      by (destruct (count_space r3 =? length r3)%nat eqn:E; symmetry; [apply Nat.eqb_eq in E; apply Nat.eqb_eq; lia|apply Nat.eqb_neq in E; apply Nat.eqb_neq; lia]).
+      destruct (count_space r3 =? length r3)%nat; reflexivity.
+    + apply Nat.ltb_ge in Hlt. destruct r3; [|cbn [length] in Hlt; lia]. reflexivity.
+Qed.
+
+Lemma dec64_parse_eval fd ws1 sg ip rest nxt :
+  all_space ws1 -> is_sign sg -> all_digit ip -> (ip <> [] \/ sg <> []) -> head_nondigit rest ->
+  dec64_parse fd (ws1 ++ (sg ++ ip) ++ rest) nxt = dec64_tail fd (sg ++ ip) rest nxt.
+Proof.
+  intros Hws1 Hsg Hip Hne Hrest.
+  unfold dec64_parse. cbv zeta. rewrite skip_space_app_ws by exact Hws1.
+  destruct (dec_head sg ip rest Hsg Hip Hne) as [c0 [r0 [Hc [Hsp [Hchk Hlen1]]]]].
+  rewrite Hc. rewrite (skip_space_id c0 r0 Hsp). cbv beta iota.
+  rewrite Hchk, Hlen1. rewrite <- Hc.
+  assert (Hpre : (0 < length (sg ++ ip))%nat).
+  { destruct (sg ++ ip) eqn:E; [|cbn; lia]. apply app_eq_nil in E. destruct E; destruct Hne; congruence. }
+  rewrite (scan_eval sg ip rest nxt Hip Hrest). cbv zeta.
+  set (pre := sg ++ ip) in *.
+  destruct rest as [|c r2].
+  - replace (length pre + 1)%nat with (length pre + 1 + length (@nil N))%nat by (cbn [length]; lia).
+    rewrite (finish_frac fd pre [] [] 0 []) by (auto 10).
+    cbn [length Nat.ltb Nat.leb count_space Nat.eqb app dec64_tail]. rewrite Nat.sub_0_r. reflexivity.
+  - cbn [dec64_tail]. destruct ((c =? 46) && is_digit (hd nxt r2)) eqn:Hdot.
+    + cbv zeta.
+      pose proof (span_digits_split r2) as [Hr2 [Hd Hh]].
+      set (fpa := fst (span_digits r2)) in *. set (r3 := snd (span_digits r2)) in *.
+      destruct (frac_norm fpa) as [fp [Hfpa [Hstrip _]]].
+      rewrite Hstrip.
+      assert (Hlen : (length pre + 1 + length fpa - tzc fpa 0 = length pre + 1 + length fp)%nat).
+      { rewrite Hfpa at 1. rewrite app_length, repeat_length. lia. }
+      rewrite Hlen.
+      rewrite (finish_frac fd pre (c :: r2) fp (tzc fpa 0) r3 Hpre); [reflexivity|].
+      right. exists c. f_equal. rewrite app_assoc, <- Hfpa. exact Hr2.
+    + apply finish_nofrac.
+Qed.
+
+(* ---------- arithmetic of the scaling ---------- *)
+Lemma pow10_pos k : (0 < 10 ^ Z.of_nat k)%Z.
+Proof. apply Z.pow_pos_nonneg; lia. Qed.
+
+Lemma pow10_add a b : (10 ^ Z.of_nat (a + b) = 10 ^ Z.of_nat a * 10 ^ Z.of_nat b)%Z.
+Proof. rewrite Nat2Z.inj_add, Z.pow_add_r by lia. reflexivity. Qed.
+
+Lemma ZofN_dec_zeros l k :
+  Z.of_N (dec_to_N (l ++ repeat 48 k)) = (Z.of_N (dec_to_N l) * 10 ^ Z.of_nat k)%Z.
+Proof. rewrite dec_to_N_app_zeros, N2Z.inj_mul, N2Z.inj_pow, nat_N_Z. reflexivity. Qed.
+
+(* n is the significant digits scaled up  <->  the written number times 10^fd is n *)
+Lemma scale_iff (sigma A n : Z) (fd lf tz : nat) :
+  (lf <= fd)%nat ->
+  ((sigma * (A * 10 ^ Z.of_nat tz) * 10 ^ Z.of_nat fd = n * 10 ^ Z.of_nat (lf + tz))%Z <->
+   n = (sigma * (A * 10 ^ Z.of_nat (fd - lf)))%Z).
+Proof.
+  intro Hle. replace fd with ((fd - lf) + lf)%nat at 1 by lia.
+  rewrite !pow10_add.
+  pose proof (pow10_pos tz) as H1. pose proof (pow10_pos lf) as H2.
+  set (x := (10 ^ Z.of_nat tz)%Z) in *. set (y := (10 ^ Z.of_nat lf)%Z) in *.
+  set (z := (10 ^ Z.of_nat (fd - lf))%Z) in *.
+  split; intro H.
+  - assert (H3 : ((sigma * (A * z)) * (x * y) = n * (x * y))%Z) by lia.
+    apply Z.mul_cancel_r in H3; lia.
+  - subst n. lia.
+Qed.
+
+(* more significant fraction digits than fraction-digits: the number is not in the value space *)
+Lemma frac_fits (sigma A B d n : Z) (fd lf tz : nat) :
+  (sigma = 1 \/ sigma = -1)%Z -> (A = 10 * B + d)%Z -> (1 <= d <= 9)%Z ->
+  (sigma * (A * 10 ^ Z.of_nat tz) * 10 ^ Z.of_nat fd = n * 10 ^ Z.of_nat (lf + tz))%Z ->
+  (lf <= fd)%nat.
+Proof.
+  intros Hs HA Hd H.
+  destruct (le_lt_dec lf fd) as [Hle|Hlt]; [exact Hle|exfalso].
+  replace lf with (fd + S (lf - fd - 1))%nat in H by lia.
+  rewrite !pow10_add in H. rewrite Nat2Z.inj_succ, Z.pow_succ_r in H by lia.
+  pose proof (pow10_pos tz) as H1. pose proof (pow10_pos fd) as H2.
+  set (x := (10 ^ Z.of_nat tz)%Z) in *. set (y := (10 ^ Z.of_nat fd)%Z) in *.
+  set (z := (10 ^ Z.of_nat (lf - fd - 1))%Z) in *.
+  assert (H3 : ((sigma * A) * (x * y) = (n * (10 * z)) * (x * y))%Z) by lia.
+  apply Z.mul_cancel_r in H3; [|lia].
+  destruct Hs as [-> | ->]; lia.
+Qed.
+
+(* ---------- the integer parse of valcopy ---------- *)
+Lemma valcopy_parse sg ip fp k n :
+  is_sign sg -> all_digit ip -> all_digit fp -> (ip ++ fp ++ repeat 48 k <> []) ->
+  (plg_parse_int ((sg ++ ip) ++ fp ++ repeat 48 k) I64MIN_Z I64MAX_Z = Ok n <->
+   n = (sgn sg * (Z.of_N (dec_to_N (ip ++ fp)) * 10 ^ Z.of_nat k))%Z /\ (I64MIN_Z <= n <= I64MAX_Z)%Z).
+Proof.
+  intros Hsg Hip Hfp Hne.
+  rewrite <- (app_assoc sg ip).
+  rewrite (plg_parse_int_core sg (ip ++ fp ++ repeat 48 k) I64MIN_Z I64MAX_Z n);
+    [|unfold I64MIN_Z; rewrite I64MAX_val; lia|unfold I64MAX_Z; rewrite I64MAX_val; lia|exact Hsg|exact Hne|
+     apply all_digit_app; [exact Hip|apply all_digit_app; [exact Hfp|apply all_digit_zeros]]].
+  rewrite sign_val_sgn, (app_assoc ip fp), ZofN_dec_zeros. reflexivity.
+Qed.
+
+Lemma dec_decomp c0 r0 :
+  (negb (is_digit c0) && negb (c0 =? 45) && negb (c0 =? 43)) = false ->
+  exists sg ip rest, c0 :: r0 = (sg ++ ip) ++ rest /\ is_sign sg /\ all_digit ip /\
+                     (ip <> [] \/ sg <> []) /\ head_nondigit rest.
+Proof.
+  intro Hchk. unfold is_sign.
+  destruct (c0 =? 45) eqn:H45; [|destruct (c0 =? 43) eqn:H43].
+  - pose proof (span_digits_split r0) as [Hr [Hd Hh]].
+    exists [45], (fst (span_digits r0)), (snd (span_digits r0)).
+    cbn [app]. rewrite <- Hr. repeat split; auto; [f_equal; lia|right; discriminate].
+  - pose proof (span_digits_split r0) as [Hr [Hd Hh]].
+    exists [43], (fst (span_digits r0)), (snd (span_digits r0)).
+    cbn [app]. rewrite <- Hr. repeat split; auto; [f_equal; lia|right; discriminate].
+  - assert (Hd0 : is_digit c0 = true) by (destruct (is_digit c0); [reflexivity|discriminate]).
+    pose proof (span_digits_split (c0 :: r0)) as [Hr [Hd Hh]].
+    exists [], (fst (span_digits (c0 :: r0))), (snd (span_digits (c0 :: r0))).
+    cbn [app]. rewrite <- Hr. repeat split; auto.
+    left. cbn [span_digits]. rewrite Hd0. destruct (span_digits r0). cbn [fst]. discriminate.
+Qed.
+
+Lemma space_not_dot w : is_space w = true -> (w =? 46) = false.
+Proof. unfold is_space. lia. Qed.
+
+(* ---------- completeness: every value of the stated language is stored, whatever follows it ---------- *)
+Lemma dec64_parse_complete fd s n nxt :
+  (1 <= fd)%nat -> ly_dec64_lex fd s n -> (I64MIN_Z <= n <= I64MAX_Z)%Z ->
+  dec64_parse fd s nxt = Ok n.
+Proof.
+  intros Hfd Hlex Hb.
+  destruct Hlex as [ws1 core ws2 n Hws1 Hws2 Hcore].
+  destruct Hcore as [sg ip ft fp n Hsg Hne Hip Hft Hden].
+  replace (ws1 ++ (sg ++ ip ++ ft) ++ ws2) with (ws1 ++ (sg ++ ip) ++ (ft ++ ws2))
+    by (rewrite <- !app_assoc; reflexivity).
+  unfold dec64_denotes in Hden.
+  destruct Hft as [|fpa Hfne Hfd1].
+  - (* no fraction *)
+    cbn [app length] in *. rewrite app_nil_r in Hden.
+    assert (Hh : head_nondigit ws2).
+    { destruct ws2 as [|w ws2']; cbn [head_nondigit]; [exact I|].
+      unfold all_space in Hws2. cbn [forallb] in Hws2. apply andb_true_iff in Hws2. apply space_not_digit. tauto. }
+    rewrite (dec64_parse_eval fd ws1 sg ip ws2 nxt Hws1 Hsg Hip Hne Hh).
+    assert (Hp : plg_parse_int ((sg ++ ip) ++ repeat 48 fd) I64MIN_Z I64MAX_Z = Ok n).
+    { change (repeat 48 fd) with ([] ++ repeat 48 fd).
+      apply valcopy_parse; [exact Hsg|exact Hip|reflexivity| |].
+      - destruct fd; [lia|]. cbn [repeat app]. intro E. apply app_eq_nil in E. destruct E; discriminate.
+      - rewrite app_nil_r. split; [|exact Hb]. cbn [Z.of_nat Z.pow] in Hden. lia. }
+    destruct ws2 as [|w ws2']; cbn [dec64_tail]; [exact Hp|].
+    assert (Hw : is_space w = true).
+    { unfold all_space in Hws2. cbn [forallb] in Hws2. apply andb_true_iff in Hws2. tauto. }
+    rewrite (space_not_dot w Hw). cbn [andb].
+    apply count_space_all in Hws2. rewrite Hws2. exact Hp.
+  - (* period and digits *)
+    assert (Hh : head_nondigit ((46 :: fpa) ++ ws2)) by reflexivity.
+    rewrite (dec64_parse_eval fd ws1 sg ip _ nxt Hws1 Hsg Hip Hne Hh).
+    cbn [app dec64_tail]. rewrite N.eqb_refl.
+    destruct fpa as [|d fpa']; [congruence|].
+    assert (Hd : is_digit d = true).
+    { unfold all_digit in Hfd1. cbn [forallb] in Hfd1. apply andb_true_iff in Hfd1. tauto. }
+    cbn [app hd]. rewrite Hd. cbn [andb]. cbv zeta.
+    assert (Hh2 : head_nondigit ws2).
+    { destruct ws2 as [|w ws2']; cbn [head_nondigit]; [exact I|].
+      unfold all_space in Hws2. cbn [forallb] in Hws2. apply andb_true_iff in Hws2. apply space_not_digit. tauto. }
+    change (d :: fpa' ++ ws2) with ((d :: fpa') ++ ws2).
+    rewrite (span_digits_app (d :: fpa') ws2 Hfd1 Hh2). cbn [fst snd].
+    set (fpa := d :: fpa') in *.
+    destruct (frac_norm fpa) as [fp [Hfpa [Hstrip Hshape]]].
+    rewrite Hstrip.
+    set (tz := tzc fpa 0) in *.
+    assert (Hdig : all_digit fp) by (rewrite Hfpa in Hfd1; apply all_digit_app_inv in Hfd1; tauto).
+    assert (Hlen : length fpa = (length fp + tz)%nat) by (rewrite Hfpa at 1; rewrite app_length, repeat_length; reflexivity).
+    rewrite Hfpa in Hden at 1. rewrite (app_assoc ip fp), ZofN_dec_zeros, Hlen in Hden.
+    assert (Hfit : (length fp <= fd)%nat).
+    { destruct Hshape as [->|[p [c [Hfp Hc]]]]; [cbn [length]; lia|].
+      rewrite Hfp in Hdig. apply all_digit_app_inv in Hdig. destruct Hdig as [_ Hcd].
+      unfold all_digit in Hcd. cbn [forallb] in Hcd. rewrite andb_true_r in Hcd.
+      apply (frac_fits (sgn sg) (Z.of_N (dec_to_N (ip ++ fp))) (Z.of_N (dec_to_N (ip ++ p))) (Z.of_N (c - 48)) n fd (length fp) tz);
+        [apply sgn_cases| |unfold is_digit in Hcd; lia|exact Hden].
+      rewrite Hfp, (app_assoc ip p), dec_to_N_snoc. lia. }
+    replace (fd <? length fp)%nat with false by (symmetry; apply Nat.ltb_ge; exact Hfit).
+    apply count_space_all in Hws2. rewrite Hws2.
+    apply valcopy_parse; [exact Hsg|exact Hip|exact Hdig| |].
+    + subst fpa. intro E. apply app_eq_nil in E. destruct E as [_ E]. apply app_eq_nil in E. destruct E as [E1 E2].
+      rewrite E1 in E2. cbn [length] in E2. rewrite Nat.sub_0_r in E2. destruct fd; [lia|]. discriminate E2.
+    + split; [|exact Hb]. apply (scale_iff _ _ _ fd (length fp) tz Hfit). exact Hden.
+Qed.
+
+(* ---------- soundness: what is stored belongs to the stated language (byte after the value not a digit) ---------- *)
+Lemma dec64_parse_sound fd s n nxt :
+  (1 <= fd)%nat -> is_digit nxt = false ->
+  dec64_parse fd s nxt = Ok n -> ly_dec64_lex fd s n /\ (I64MIN_Z <= n <= I64MAX_Z)%Z.
+Proof.
+  intros Hfd Hnxt H.
+  destruct (skip_space_split s) as [ws1 [Hs Hws1]].
+  assert (Hval : exists c0 r0, skip_space s = c0 :: r0 /\
+                 (negb (is_digit c0) && negb (c0 =? 45) && negb (c0 =? 43)) = false).
+  { unfold dec64_parse in H. cbv zeta in H. destruct (skip_space s) as [|c0 r0]; [discriminate|].
+    exists c0, r0. split; [reflexivity|].
+    destruct (negb (is_digit c0) && negb (c0 =? 45) && negb (c0 =? 43)); [discriminate|reflexivity]. }
+  destruct Hval as [c0 [r0 [Hsk Hchk]]].
+  destruct (dec_decomp c0 r0 Hchk) as [sg [ip [rest [Hv [Hsg [Hip [Hne Hrest]]]]]]].
+  rewrite Hsk, Hv in Hs. rewrite Hs in H |- *.
+  rewrite (dec64_parse_eval fd ws1 sg ip rest nxt Hws1 Hsg Hip Hne Hrest) in H.
+  assert (Hnofrac : forall ws2, all_space ws2 ->
+            plg_parse_int ((sg ++ ip) ++ repeat 48 fd) I64MIN_Z I64MAX_Z = Ok n ->
+            ly_dec64_lex fd (ws1 ++ (sg ++ ip) ++ ws2) n /\ (I64MIN_Z <= n <= I64MAX_Z)%Z).
+  { intros ws2 Hws2 Hp.
+    change (repeat 48 fd) with ([] ++ repeat 48 fd) in Hp.
+    apply valcopy_parse in Hp; [|exact Hsg|exact Hip|reflexivity|].
+    - destruct Hp as [Hn Hb]. split; [|exact Hb].
+      replace ((sg ++ ip) ++ ws2) with ((sg ++ ip ++ []) ++ ws2) by (rewrite app_nil_r; reflexivity).
+      apply WsAround; [exact Hws1|exact Hws2|].
+      apply LyDecCore with (fp := []); [exact Hsg|exact Hne|exact Hip|apply FracNone|].
+      unfold dec64_denotes. cbn [length Z.of_nat Z.pow]. rewrite app_nil_r in Hn |- *. lia.
+    - destruct fd; [lia|]. cbn [repeat app]. intro E. apply app_eq_nil in E. destruct E; discriminate. }
+  destruct rest as [|c r2]; cbn [dec64_tail] in H.
+  - apply (Hnofrac [] eq_refl H).
+  - destruct ((c =? 46) && is_digit (hd nxt r2)) eqn:Hdot.
+    + cbv zeta in H. apply andb_true_iff in Hdot. destruct Hdot as [H46 Hdg].
+      assert (Hc : c = 46) by lia. subst c.
+      pose proof (span_digits_split r2) as [Hr2 [Hd Hh]].
+      set (fpa := fst (span_digits r2)) in *. set (r3 := snd (span_digits r2)) in *.
+      assert (Hfne : fpa <> []).
+      { destruct r2 as [|d r2']; cbn [hd] in Hdg; [congruence|].
+        subst fpa. cbn [span_digits]. rewrite Hdg. destruct (span_digits r2'). cbn [fst]. discriminate. }
+      destruct (frac_norm fpa) as [fp [Hfpa [Hstrip Hshape]]].
+      rewrite Hstrip in H. set (tz := tzc fpa 0) in *.
+      destruct (fd <? length fp)%nat eqn:Hfit; [discriminate|]. apply Nat.ltb_ge in Hfit.
+      destruct (count_space r3 =? length r3)%nat eqn:Hsp; [|discriminate].
+      apply count_space_all in Hsp.
+      assert (Hdig : all_digit fp).
+      { unfold all_digit in Hd. fold (all_digit fpa) in Hd. rewrite Hfpa in Hd. apply all_digit_app_inv in Hd. tauto. }
+      apply valcopy_parse in H; [|exact Hsg|exact Hip|exact Hdig|].
+      * destruct H as [Hn Hb]. split; [|exact Hb].
+        rewrite Hr2.
+        replace ((sg ++ ip) ++ 46 :: fpa ++ r3) with ((sg ++ ip ++ 46 :: fpa) ++ r3)
+          by (rewrite <- !app_assoc; reflexivity).
+        apply WsAround; [exact Hws1|exact Hsp|].
+        apply LyDecCore with (fp := fpa); [exact Hsg|exact Hne|exact Hip|apply FracSome; [exact Hfne|exact Hd]|].
+        unfold dec64_denotes.
+        assert (Hlen : length fpa = (length fp + tz)%nat) by (rewrite Hfpa at 1; rewrite app_length, repeat_length; reflexivity).
+        rewrite Hfpa at 1. rewrite (app_assoc ip fp), ZofN_dec_zeros, Hlen.
+        apply (scale_iff _ _ _ fd (length fp) tz Hfit). exact Hn.
+      * intro E. apply app_eq_nil in E. destruct E as [_ E]. apply app_eq_nil in E. destruct E as [E1 E2].
+        rewrite E1 in E2. cbn [length] in E2. rewrite Nat.sub_0_r in E2. destruct fd; [lia|]. discriminate E2.
+    + destruct (count_space (c :: r2) =? length (c :: r2))%nat eqn:Hsp; [|discriminate].
+      apply count_space_all in Hsp. apply (Hnofrac _ Hsp H).
+Qed.
+
+(* ---------- canonical form ---------- *)
+Definition sg_of (n : Z) : bytes := if (n <? 0)%Z then [45] else [].
+
+Lemma sgn_sg_of n : (sgn (sg_of n) * Z.of_N (Z.abs_N n) = n)%Z.
+Proof.
+  unfold sg_of, sgn. destruct (n <? 0)%Z eqn:E.
+  - change (beq_bytes [45] [45]) with true. cbv iota. lia.
+  - change (beq_bytes [] [45]) with false. cbv iota. lia.
+Qed.
+
+Lemma dec64_canon_decomp fd n :
+  (1 <= fd)%nat -> n <> 0%Z ->
+  exists ip fp,
+    dec64_canon fd n = sg_of n ++ ip ++ 46 :: fp /\
+    all_digit ip /\ (ip = [48] \/ exists d r, ip = d :: r /\ d <> 48) /\
+    all_digit fp /\ fp <> [] /\ (fp = [48] \/ exists p d, fp = p ++ [d] /\ d <> 48) /\
+    dec64_denotes fd (sg_of n) ip fp n.
+Proof.
+  intros Hfd Hn. unfold dec64_canon.
+  replace (n =? 0)%Z with false by (symmetry; apply Z.eqb_neq; exact Hn).
+  cbv zeta. fold (sg_of n).
+  destruct (N_to_dec_pos (Z.abs_N n) ltac:(lia)) as [c [r [Hds0 [Hdig0 [Hc Hval0]]]]].
+  rewrite Hds0.
+  set (ds0 := c :: r) in *.
+  set (z := (S fd - length ds0)%nat).
+  set (ds := repeat 48 z ++ ds0).
+  assert (Hlen : length ds = (z + length ds0)%nat) by (unfold ds; rewrite app_length, repeat_length; reflexivity).
+  set (k := (length ds - fd)%nat).
+  assert (Hk : (1 <= k)%nat) by (unfold k, z in *; lia).
+  assert (Hdsd : all_digit ds) by (apply all_digit_app; [apply all_digit_zeros|exact Hdig0]).
+  assert (Hdsv : dec_to_N ds = Z.abs_N n) by (unfold ds; rewrite dec_to_N_lead_zeros; exact Hval0).
+  pose proof (firstn_skipn k ds) as Hsplit.
+  set (ip := firstn k ds) in *. set (fr := skipn k ds) in *.
+  assert (Hfrl : length fr = fd) by (unfold fr; rewrite skipn_length; unfold k; lia).
+  rewrite <- Hsplit in Hdsd. apply all_digit_app_inv in Hdsd. destruct Hdsd as [Hipd Hfrd].
+  destruct fr as [|c' r'] eqn:Hfr; [cbn [length] in Hfrl; lia|].
+  cbn [frac_canon].
+  destruct (frac_norm r') as [fpr [Hr' [Hstrip Hshape]]]. rewrite Hstrip.
+  set (tz := tzc r' 0) in *.
+  exists ip, (c' :: fpr).
+  assert (Hfpd : all_digit (c' :: fpr)).
+  { rewrite Hr' in Hfrd. change (c' :: fpr ++ repeat 48 tz) with ((c' :: fpr) ++ repeat 48 tz) in Hfrd.
+    apply all_digit_app_inv in Hfrd. tauto. }
+  split; [reflexivity|]. split; [exact Hipd|]. split.
+  { (* integer part: a single 0 or no leading zero *)
+    unfold ip. destruct z as [|z'] eqn:Hz.
+    - right. unfold ds. cbn [repeat app]. unfold ds0. destruct k as [|k']; [lia|]. cbn [firstn].
+      exists c, (firstn k' r). auto.
+    - left. assert (Hk1 : k = 1%nat) by (unfold k; unfold z in Hz; lia).
+      rewrite Hk1. unfold ds. cbn [repeat app firstn]. reflexivity. }
+  split; [exact Hfpd|]. split; [discriminate|]. split.
+  { destruct Hshape as [->|[p [d [-> Hd]]]].
+    - destruct (N.eq_dec c' 48) as [->|Hc']; [left; reflexivity|right; exists [], c'; auto].
+    - right. exists (c' :: p), d. auto. }
+  (* the number *)
+  unfold dec64_denotes.
+  assert (Hfd2 : fd = (length (c' :: fpr) + tz)%nat).
+  { rewrite <- Hfrl. rewrite Hr' at 1. cbn [length]. rewrite app_length, repeat_length. lia. }
+  assert (Hdsv2 : Z.of_N (Z.abs_N n) = (Z.of_N (dec_to_N (ip ++ c' :: fpr)) * 10 ^ Z.of_nat tz)%Z).
+  { rewrite <- Hdsv, <- Hsplit, <- ZofN_dec_zeros. f_equal. f_equal. rewrite <- app_assoc. f_equal.
+    cbn [app]. f_equal. exact Hr'. }
+  rewrite Hfd2 at 1. rewrite pow10_add.
+  pose proof (sgn_sg_of n) as Hsgn. rewrite Hdsv2 in Hsgn.
+  set (x := (10 ^ Z.of_nat (length (c' :: fpr)))%Z) in *. set (y := (10 ^ Z.of_nat tz)%Z) in *.
+  set (A := Z.of_N (dec_to_N (ip ++ c' :: fpr))) in *. rewrite <- Hsgn at 2. ring.
+Qed.
+
+Lemma dec64_canon_zero fd : dec64_canon fd 0 = [48; 46; 48].
+Proof. reflexivity. Qed.
+
+Theorem dec64_canon_is_rfc fd n : (1 <= fd)%nat -> rfc_dec64_canonical (dec64_canon fd n).
+Proof.
+  intro Hfd. unfold rfc_dec64_canonical.
+  destruct (Z.eq_dec n 0) as [->|Hn].
+  - exists [], [48], [48]. rewrite dec64_canon_zero. cbn [app].
+    repeat split; auto. intro H; discriminate.
+  - destruct (dec64_canon_decomp fd n Hfd Hn) as [ip [fp [Heq [Hipd [Hipc [Hfpd [_ [Hfpc Hden]]]]]]]].
+    exists (sg_of n), ip, fp. repeat split; auto.
+    + unfold sg_of. destruct (n <? 0)%Z; auto.
+    + intros _ [-> ->]. unfold dec64_denotes in Hden.
+      change (Z.of_N (dec_to_N ([48] ++ [48]))) with 0%Z in Hden.
+      cbn [length] in Hden. change (10 ^ Z.of_nat 1)%Z with 10%Z in Hden. lia.
+Qed.
+
+Lemma dec64_canon_lex fd n : (1 <= fd)%nat -> rfc_dec64_lex fd (dec64_canon fd n) n.
+Proof.
+  intro Hfd. destruct (Z.eq_dec n 0) as [->|Hn].
+  - rewrite dec64_canon_zero. change [48; 46; 48] with ([] ++ [48] ++ [46; 48]).
+    apply RfcDec with (fp := [48]); [left; reflexivity|discriminate|reflexivity|apply FracSome; [discriminate|reflexivity]|].
+    unfold dec64_denotes. change (Z.of_N (dec_to_N ([48] ++ [48]))) with 0%Z. lia.
+  - destruct (dec64_canon_decomp fd n Hfd Hn) as [ip [fp [Heq [Hipd [Hipc [Hfpd [Hfne [_ Hden]]]]]]]].
+    rewrite Heq. apply RfcDec with (fp := fp); auto.
+    + unfold sg_of, is_sign. destruct (n <? 0)%Z; auto.
+    + destruct Hipc as [->|[d [r [-> _]]]]; discriminate.
+    + apply FracSome; assumption.
+Qed.
+
+Lemma rfc_core_is_ly_core fd c n : rfc_dec64_lex fd c n -> ly_dec64_core fd c n.
+Proof. intros [sg ip ft fp m Hsg Hne Hip Hft Hden]. apply LyDecCore with (fp := fp); auto. Qed.
+
+Lemma rfc_ws_is_ly_lex fd s n : rfc_ws_dec64_lex fd s n -> ly_dec64_lex fd s n.
+Proof. intros [ws1 core ws2 m H1 H2 Hc]. apply WsAround; auto. apply rfc_core_is_ly_core. exact Hc. Qed.
+
+Lemma ws_around_id (P : bytes -> Z -> Prop) c n : P c n -> ws_around P c n.
+Proof.
+  intro H. replace c with ([] ++ c ++ []) by (cbn [app]; apply app_nil_r).
+  apply WsAround; [reflexivity|reflexivity|exact H].
+Qed.
+
+(* storing the canonical string gives the value back, whatever byte follows it *)
+Theorem dec64_canon_parse fd n nxt :
+  (1 <= fd)%nat -> (I64MIN_Z <= n <= I64MAX_Z)%Z ->
+  dec64_parse fd (dec64_canon fd n) nxt = Ok n.
+Proof.
+  intros Hfd Hb. apply dec64_parse_complete; [exact Hfd| |exact Hb].
+  apply rfc_ws_is_ly_lex. apply ws_around_id. apply dec64_canon_lex. exact Hfd.
+Qed.
+
+Theorem dec64_canon_store fd parts n nxt :
+  (1 <= fd)%nat -> (I64MIN_Z <= n <= I64MAX_Z)%Z -> validate_range parts n = true ->
+  dec64_store fd parts (dec64_canon fd n) nxt = Ok n.
+Proof.
+  intros Hfd Hb Hr. unfold dec64_store. rewrite (dec64_canon_parse fd n nxt Hfd Hb), Hr. reflexivity.
+Qed.
+
+Theorem dec64_eq_iff_canon fd a b :
+  (1 <= fd)%nat -> (I64MIN_Z <= a <= I64MAX_Z)%Z -> (I64MIN_Z <= b <= I64MAX_Z)%Z ->
+  (dec64_compare a b = true <-> dec64_canon fd a = dec64_canon fd b).
+Proof.
+  intros Hfd Ha Hb. unfold dec64_compare. split.
+  - intro H. apply Z.eqb_eq in H. subst. reflexivity.
+  - intro H. apply Z.eqb_eq.
+    pose proof (dec64_canon_parse fd a 0 Hfd Ha) as Pa. pose proof (dec64_canon_parse fd b 0 Hfd Hb) as Pb.
+    rewrite H in Pa. congruence.
+Qed.
+
+Theorem dec64_sort_total_order :
+  (forall a, dec64_sort a a = Eq) /\
+  (forall a b, dec64_sort a b = Eq <-> dec64_compare a b = true) /\
+  (forall a b, dec64_sort a b = CompOpp (dec64_sort b a)) /\
+  (forall a b c, dec64_sort a b = Lt -> dec64_sort b c = Lt -> dec64_sort a c = Lt).
+Proof. exact int_sort_total_order. Qed.
+
+(* ---------- the full-strength statement, with the defect inputs excluded ---------- *)
+Lemma sign_no_digit_of_core ws1 sg ft fp ws2 :
+  all_space ws1 -> all_space ws2 -> is_sign sg -> sg <> [] -> frac_part ft fp ->
+  dec64_sign_no_digit (ws1 ++ (sg ++ [] ++ ft) ++ ws2) = true.
+Proof.
+  intros Hws1 Hws2 Hsg Hne Hft. unfold dec64_sign_no_digit.
+  rewrite skip_space_app_ws by exact Hws1. cbn [app].
+  assert (Hnd : is_digit (hd 0 (ft ++ ws2)) = false).
+  { destruct Hft as [|fpa _ _]; cbn [app hd]; [|reflexivity].
+    destruct ws2 as [|w ws2']; cbn [hd]; [reflexivity|].
+    unfold all_space in Hws2. cbn [forallb] in Hws2. apply andb_true_iff in Hws2. apply space_not_digit. tauto. }
+  destruct Hsg as [-> | [-> | ->]]; [congruence| |]; cbn [app];
+    rewrite skip_space_id by reflexivity; rewrite Hnd; reflexivity.
+Qed.
+
+Theorem dec64_scale fd s n nxt :
+  (1 <= fd)%nat -> is_digit nxt = false -> dec64_sign_no_digit s = false ->
+  (dec64_parse fd s nxt = Ok n <->
+   rfc_ws_dec64_lex fd s n /\ (I64MIN_Z <= n <= I64MAX_Z)%Z).
+Proof.
+  intros Hfd Hnxt Hdef. split.
+  - intro H. apply (dec64_parse_sound fd s n nxt Hfd Hnxt) in H. destruct H as [Hlex Hb].
+    split; [|exact Hb].
+    destruct Hlex as [ws1 core ws2 m Hws1 Hws2 Hcore].
+    apply WsAround; [exact Hws1|exact Hws2|].
+    destruct Hcore as [sg ip ft fp m Hsg Hne Hip Hft Hden].
+    destruct ip as [|d ip'].
+    + exfalso. destruct Hne as [Hne|Hne]; [congruence|].
+      rewrite (sign_no_digit_of_core ws1 sg ft fp ws2 Hws1 Hws2 Hsg Hne Hft) in Hdef. discriminate.
+    + apply RfcDec with (fp := fp); auto. discriminate.
+  - intros [Hlex Hb]. apply dec64_parse_complete; [exact Hfd|apply rfc_ws_is_ly_lex; exact Hlex|exact Hb].
+Qed.
+
+(* as coded, without exclusions *)
+Theorem dec64_scale_ascoded fd s n nxt :
+  (1 <= fd)%nat -> is_digit nxt = false ->
+  (dec64_parse fd s nxt = Ok n <-> ly_dec64_lex fd s n /\ (I64MIN_Z <= n <= I64MAX_Z)%Z).
+Proof.
+  intros Hfd Hnxt. split.
+  - apply dec64_parse_sound; assumption.
+  - intros [Hlex Hb]. apply dec64_parse_complete; assumption.
+Qed.
+
+(* ---------- refutations ---------- *)
+Lemma rfc_ws_has_digit fd s n : rfc_ws_dec64_lex fd s n -> existsb is_digit s = true.
+Proof.
+  intros [ws1 core ws2 m _ _ Hcore]. destruct Hcore as [sg ip ft fp m _ Hne Hip _ _].
+  destruct ip as [|d ip']; [congruence|].
+  unfold all_digit in Hip. cbn [forallb] in Hip. apply andb_true_iff in Hip. destruct Hip as [Hd _].
+  rewrite !existsb_app. cbn [existsb]. rewrite Hd. cbn [orb]. rewrite !orb_true_r. reflexivity.
+Qed.
+
+(* a sign alone is stored as zero although it is not in the lexical space (RFC 7950 9.3.1 requires digits) *)
+Theorem dec64_sign_only_refuted :
+  forall fd nxt, (1 <= fd)%nat ->
+    dec64_parse fd [45] nxt = Ok 0%Z /\ dec64_parse fd [43] nxt = Ok 0%Z /\
+    (forall n, ~ rfc_ws_dec64_lex fd [45] n) /\ (forall n, ~ rfc_ws_dec64_lex fd [43] n).
+Proof.
+  intros fd nxt Hfd.
+  assert (Hc : forall sg, is_sign sg -> sg <> [] -> ly_dec64_lex fd sg 0%Z).
+  { intros sg Hsg Hne. apply ws_around_id.
+    replace sg with (sg ++ [] ++ []) at 1 by (rewrite app_nil_r; reflexivity).
+    apply LyDecCore with (fp := []); [exact Hsg|right; exact Hne|reflexivity|apply FracNone|].
+    unfold dec64_denotes. cbn. lia. }
+  split; [apply dec64_parse_complete; [exact Hfd|apply Hc; [right; right; reflexivity|discriminate]|unfold I64MIN_Z, I64MAX_Z; lia]|].
+  split; [apply dec64_parse_complete; [exact Hfd|apply Hc; [right; left; reflexivity|discriminate]|unfold I64MIN_Z, I64MAX_Z; lia]|].
+  split; intros n H; apply rfc_ws_has_digit in H; discriminate.
+Qed.
+
+(* the excluded inputs are all outside the RFC language, so the exclusion loses nothing of it *)
+Lemma rfc_not_defect fd s n : rfc_ws_dec64_lex fd s n -> dec64_sign_no_digit s = false.
+Proof.
+  intros [ws1 core ws2 m Hws1 _ Hcore]. destruct Hcore as [sg ip ft fp m Hsg Hne Hip _ _].
+  unfold dec64_sign_no_digit. rewrite skip_space_app_ws by exact Hws1.
+  destruct ip as [|d ip']; [congruence|].
+  unfold all_digit in Hip. cbn [forallb] in Hip. apply andb_true_iff in Hip. destruct Hip as [Hd _].
+  pose proof (digit_not_space d Hd) as Hns.
+  destruct Hsg as [-> | [-> | ->]]; cbn [app].
+  - rewrite skip_space_id by exact Hns. unfold is_digit in Hd.
+    destruct (d =? 45) eqn:E1; [lia|]. destruct (d =? 43) eqn:E2; [lia|]. reflexivity.
+  - rewrite skip_space_id by reflexivity. cbn [hd]. rewrite Hd. reflexivity.
+  - rewrite skip_space_id by reflexivity. cbn [hd]. rewrite Hd. reflexivity.
+Qed.
+
+(* the digits before the period may be missing after a sign *)
+Theorem dec64_no_int_digits_refuted :
+  dec64_parse 1 [45; 46; 53] 0 = Ok (-5)%Z /\ (forall n, ~ rfc_ws_dec64_lex 1 [45; 46; 53] n) /\
+  dec64_parse 1 [46; 53] 0 = Err E_VALID.
+Proof.
+  split; [reflexivity|]. split; [|reflexivity].
+  intros n H. apply rfc_not_defect in H. discriminate.
+Qed.
+
+(* the verdict on a value ending in a period depends on the byte AFTER the value *)
+Theorem dec64_overread_refuted :
+  dec64_parse 1 [49; 46] 53 = Ok 10%Z /\ dec64_parse 1 [49; 46] 0 = Err E_VALID /\
+  (forall n, (I64MIN_Z <= n <= I64MAX_Z)%Z -> ~ rfc_ws_dec64_lex 1 [49; 46] n).
+Proof.
+  split; [reflexivity|]. split; [reflexivity|].
+  intros n Hb H. apply rfc_ws_is_ly_lex in H.
+  apply (dec64_parse_complete 1 _ n 0 ltac:(lia)) in H; [|exact Hb]. discriminate.
+Qed.
